@@ -335,3 +335,40 @@ pub fn replay(part: &str, bytes: &[u8], case: &Value, stats: &mut Stats) -> Verd
         _ => check(bytes, stats),
     }
 }
+
+/// Byte-level entry for the fuzz target: one generated interruption sequence per input (the
+/// proptest-driven part enumerates all expiry points of a position; here coverage guidance picks
+/// them), or a bare-material case.
+pub fn fuzz_entry(bytes: &[u8]) -> Verdict {
+    REF_CAP.with(|c| c.set(40_000));
+    let mut st = Stats::new();
+    if bytes.first().map(|b| b & 3 == 3).unwrap_or(false) {
+        return check_bare(&bytes[1..], &mut st);
+    }
+    let mut s = Src::new(bytes.get(1..).unwrap_or(&[]));
+    let (p, kind) = gen::g_small(&mut s);
+    let men = p.men();
+    let d: u8 = if men <= 5 { 1 + s.below(4) as u8 } else if men <= 9 { 1 + s.below(3) as u8 } else { 1 + s.below(2) as u8 };
+    if p.legal_moves().is_empty() {
+        return Ok(());
+    }
+    let mut rs = RefSearch::new(40_000);
+    if rs.v(&p, d).is_err() {
+        return Ok(());
+    }
+    let mut s0 = Searcher::new();
+    s0.verif_set_hard_cap(Some(5_001));
+    let b = eng::to_board(&p);
+    if std::panic::catch_unwind(std::panic::AssertUnwindSafe(|| s0.find_best_move(&b, d, None))).is_err() {
+        return Ok(());
+    }
+    let t = s0.verif_nodes();
+    if t < 3 {
+        return Ok(());
+    }
+    let n = 1 + s.below(3);
+    let seq: Vec<u64> = (0..n).map(|_| 1 + (s.u16() as u64 * (t - 1)) / 65536).collect();
+    let mut tree = Vec::new();
+    tree_positions(&p, d, &mut tree, 6000);
+    judge_sequence(&p, d, &seq, t, kind, &mut rs, &tree, &mut st).map(|_| ())
+}
